@@ -33,6 +33,11 @@ def q(s):
 
 
 PREC_ATOM = 100
+# binding strength of the binary operators (PRATT_PARSER of compiler/src/ast/math_expr.rs at the pinned commit, all
+# left-associative); used by the minimal-parentheses rendering only
+PREC = {"||": 1, "^": 1, "&&": 2, "<": 3, "<=": 3, ">": 3, ">=": 3, "==": 3, "!=": 3, "|": 4, "&": 4, "xor": 5,
+        "<<": 6, ">>": 6, "+": 7, "-": 7, "*": 8, "/": 8, "%": 8}
+MINPAREN = False      # set through program(..., minparen=True)
 
 
 def pe(e):
@@ -57,6 +62,8 @@ def pe(e):
     if t == "var":
         return e[1]
     if t == "bin":
+        if MINPAREN and e[1] in PREC:
+            return f"{pa(e[2], PREC[e[1]], False)} {e[1]} {pa(e[3], PREC[e[1]], True)}"
         return f"{pa(e[2])} {e[1]} {pa(e[3])}"
     if t == "neg":
         return f"-{pp(e[1])}"
@@ -67,6 +74,8 @@ def pe(e):
     if t == "typeof":
         return f"typeof {pp(e[1])}"
     if t == "or":
+        if MINPAREN and e[2][0] == "bin":
+            return f"({pe(e[1])}) or {pe(e[2])}"     # the fallback is a whole expression: `or` takes everything to its right
         return f"({pe(e[1])}) or {pa(e[2])}"
     if t == "unwrap":
         return f"{e[1]} ?= {pa(e[2])}"
@@ -101,10 +110,17 @@ def is_atom(e):
         e[0] in ("int", "big") and e[1] < 0)
 
 
-def pa(e):
-    """operand of a binary operator"""
+def pa(e, parent=None, right=False):
+    """operand of a binary operator; with MINPAREN a compound operand keeps its parentheses only where the precedence
+    table requires them (left operand: binds at least as tightly; right operand: binds strictly tighter; a prefix
+    operator binds tighter than every binary operator)"""
     if is_atom(e) or e[0] in ("call", "selfcall", "new", "index", "method", "field"):
         return pe(e)
+    if MINPAREN and parent is not None:
+        if e[0] == "bin" and e[1] in PREC and (PREC[e[1]] > parent or (not right and PREC[e[1]] == parent)):
+            return pe(e)
+        if e[0] in ("not", "neg"):
+            return pe(e)
     return f"({pe(e)})"
 
 
@@ -200,8 +216,13 @@ def pblock(stmts, ind):
     return "".join(pstmt(s, ind) for s in stmts)
 
 
-def program(stmts):
-    return pblock(stmts, 0)
+def program(stmts, minparen=False):
+    global MINPAREN
+    MINPAREN = minparen
+    try:
+        return pblock(stmts, 0)
+    finally:
+        MINPAREN = False
 
 
 # ---------------------------------------------------------------------------------------------
